@@ -54,7 +54,7 @@ theorem result_is_fresh (ort : Bool) (h h' : Heap Val) (s : Step Val) (hs : ∀ 
 theorem set_replaces_both (ort : Bool) (h h' : Heap Val) (d src : Nat) (c : Cell Val)
     (hc : h[src]? = some c) (hd : d < h.length) (hstep : step sem ort h (.set d src) = some h') :
     h'[d]? = some ⟨c.var, c.eager⟩ := by
-  simp only [step, hc, Option.bind_some, hd, if_true, Option.some.injEq] at hstep
+  simp only [step, resolve, stepBase, hc, Option.bind_some, hd, if_true, Option.some.injEq] at hstep
   subst hstep
   simp [hd]
 
